@@ -85,6 +85,17 @@ def forestStep (fs : ForestState) (ts : List String) : ForestState × List Strin
     ({ fs with st := { fs.st with rootSpans := parseIdxs sp, rootEvents := parseIdxs ev } }, [])
   | ["F", "end"] => ({}, forestFlush fs.st ++ ["F end"])
   | "Q" :: _ => (fs, [])
+  | "X" :: kind :: la :: i :: lb :: j :: _ =>
+    -- identity / order of two handles (storages named L<n> or R<n>)
+    let key (l : String) : Nat := (if l.startsWith "R" then 100 else 0) + ((l.drop 1).toString.toNat?.getD 0)
+    match i.toNat?, j.toNat? with
+    | some i, some j =>
+      let a : ItemRef := ⟨key la, i⟩
+      let b : ItemRef := ⟨key lb, j⟩
+      let c := match a.partialCmp b with
+        | none => "none" | some .lt => "lt" | some .eq => "eq" | some .gt => "gt"
+      (fs, [s!"X {kind} {la} {i} {lb} {j} eq={if a.beq b then 1 else 0} cmp={c}"])
+    | _, _ => (fs, ["X bad"])
   | _ => (fs, [])
 
 end Driver
